@@ -295,8 +295,10 @@ def _explore(arg):
             ops = first_ops if lvl == 0 else [o for o, _ in OPS]
             for op in ops:
                 proj.restore(os.path.join(snaps, snap), pr.root)
+                proj.tick()
                 if OPD[op](pr.src, lvl) == 'noop':
                     continue
+                proj.tick()
                 transitions += 1
                 h2 = hist + [op]
                 ok = check_node(node, h2, viol)
@@ -373,7 +375,9 @@ def replay(rec):
     print(node.run_tool()[1][-300:])
     viol = []
     for i, op in enumerate(hist):
+        proj.tick()
         OPD[op](node.pr.src, i)
+        proj.tick()
         check_node(node, hist[:i + 1], viol)
     for v in viol:
         print(v)
